@@ -15,7 +15,7 @@ META = {
            '(b) precedence: lists of K <= 5 (quick) / 7 (thorough) items, every operator symbolic, every starting rank - modular induction over the list length; whole recursion K <= 2 / 3; '
            'documented levels vs rank table as exact values K <= 4 / 5.  (c) text: fully symbolic texts of every length L <= 4 (quick) / 6 (thorough) in exact-size buffers for '
            'getOperation / isExpression / the parseExpressions driver, operand stretches up to 8 / 9 units for parseValue; char (scanners also char16_t, char32_t).',
- 'outside': 'longer lists / texts; integer powers with |e| > 15 or wide bases with |e| > 3 (64-bit Integer bases with |e| = 2 are not decided by any back end and are left out); '
+ 'outside': 'longer lists / texts; integer powers with |e| > 15 or 64-bit Natural bases with |e| > 3; 64-bit Integer bases only with exponent 0 and 1 (no back end decides the others; negative bases are covered at 4 bits); '
             'the product is checked as "kind rule + low 64-bit word of the exact product" (no back end proves a 128-vs-64-bit multiplier equivalence); real results are compared bit-exactly '
             'with the IEEE operation on the promoted operands, not with exact rationals; bitwise operators on non-integral reals; 0^0 and 0^-n (engine: 0; open question); '
             'Digit::StringToNumber (C09) and nested lists are contract stubs in (c); Natural % with operands >= 2^63 only through the finding query while that finding is open.',
@@ -38,6 +38,7 @@ OPN = {1: 'or', 2: 'and', 3: 'eq', 4: 'ne', 5: 'ge', 6: 'le', 7: 'gt', 8: 'lt', 
 MANUAL_KF = os.environ.get('C04_KF_MANUAL')     # testing aid while the ids are not yet in known_findings.json
 def kq(name, entry, defs, kf_excl=(), kf_only=None, **kw):
     defs = dict(defs)
+    if os.environ.get('C04_BACKEND'): kw['backend'] = os.environ['C04_BACKEND']     # debugging aid
     if MANUAL_KF:
         for k in kf_excl: defs['KF_EXCL_' + k.replace('-', '_')] = 1
         if kf_only: defs['KF_ONLY_' + kf_only.replace('-', '_')] = 1
@@ -46,6 +47,7 @@ def kq(name, entry, defs, kf_excl=(), kf_only=None, **kw):
 INTS = 28            # kind set {Natural, Integer}
 KF_NAT = 'C04-natural-cmp'
 KF_NATR = 'C04-natural-rem'
+REM_BACKEND = 'cvc5'
 def kernel_queries(tier):
     qs = []
     # + - * : integer kinds together (SAT), every pair with a real separately (cvc5 floating-point theory)
@@ -63,7 +65,9 @@ def kernel_queries(tier):
     SOV = ['--signed-overflow-check']        # 'result of signed mod is not representable': INT64_MIN % -1 traps on x86-64
     for lk in (1, 2, 3):
         for rk in (1, 2, 3):
-            qs.append(kq('kernel/rem/%s-%s' % (KN[lk], KN[rk]), 'h_rem', {'LK': lk, 'RK': rk}, kf_excl=EX, backend='cvc5', extra_cbmc=SOV, timeout=300))
+            for cls, cn in ((0, 'zero'), (1, 'minus1'), (2, 'other')):      # divisor classes: see DIVCLS in the harness
+                if cls == 1 and rk == 2: continue                            # a Natural divisor inside int64 is never -1
+                qs.append(kq('kernel/rem/%s-%s/%s' % (KN[lk], KN[rk], cn), 'h_rem', {'LK': lk, 'RK': rk, 'DIVCLS': cls}, kf_excl=EX, backend=REM_BACKEND, extra_cbmc=SOV, timeout=300))
     qs.append(kq('kernel/rem/kf-zero', 'h_rem', {'LK': 0, 'RK': 0}, kf_only='C04-rem-zero', extra_cbmc=SOV, timeout=300))
     qs.append(kq('kernel/rem/kf-overflow', 'h_rem', {'LK': 0, 'RK': 0}, kf_only='C04-rem-overflow', extra_cbmc=SOV, timeout=300))
     qs.append(kq('kernel/rem/kf-natural', 'h_rem', {'LK': 0, 'RK': 0, 'REM_WIDE': 1}, kf_only=KF_NATR, timeout=300))
@@ -90,7 +94,8 @@ def kernel_queries(tier):
     qs.append(kq('kernel/pow/kf-neg-even', 'h_pow', {'LK': 0, 'RK': 3, 'PB': 4, 'PE': -2}, kf_only=KP, bounds={'ref_pow': 3}, rec_bounds=PW(2), backend='cvc5', timeout=300))
     for e in (-3, -2, -1, 0, 1, 2, 3):
         for lk in (2, 3):
-            if lk == 3 and abs(e) == 2: continue     # clang folds |b|*|b| of the reference to b*b; no back end proves (-b)*(-b) == b*b at 64 bits (4-bit bases: small/e2)
+            if lk == 3 and e not in (0, 1): continue  # 64-bit Integer bases: |b| is a byte-wise ite on the engine side and a word-wise one in the reference; no back end
+                                                      # proves the 64-bit multiplier / divider equivalence behind it (signs are covered by the 4-bit bases)
             qs.append(kq('kernel/pow/wide/%s/e%d' % (KN[lk], e), 'h_pow', {'LK': lk, 'RK': 3, 'PB': 64, 'PE': e}, kf_excl=[KP], bounds={'ref_pow': abs(e) + 1}, rec_bounds=PW(e),
                          backend='cvc5', timeout=300))
     # fractional base / exponent: |x| in (0,1) -> no value (documented); other non-integral reals are truncated today (finding)
